@@ -33,7 +33,8 @@ RULE = ("one run = 1 tracker (or a pool of 2-3) fed battery and inverter message
         "message/silence or failed result; distinct = abstract digest of (event kind, stream) sequence; model states = "
         "(bat_ok, inv_ok, blocked, status) visited"
         " Also: messages stamped in other UTC offsets, a fresh NaN object for a missing capacity, fractional max"
-        " data age / blocking duration, a streak of 50-62 consecutive failures (5% of exact runs).")
+        " data age / blocking duration, a streak of 50-62 consecutive failures (5% of exact runs)."
+        " 8% of runs contain a device re-sending one and the same sample while it ages past the maximum data age.")
 QUICK_RUNS = 3000
 THOROUGH_RUNS = 200_000
 EXPECT_PROBES = ["msg_aged_exactly_max", "msg_aged_max_plus_1us", "silence_exactly_max_age", "silence_max_minus_1us",
